@@ -778,6 +778,22 @@ func fixExpressionTypes(exp syntax.Exp, tname syntax.TypeId, lookup *syntax.Type
 	}
 }
 
+// Returns the type of the given member of struct type tname, or tname
+// itself if that is not known to be a struct with such a member.
+func structMemberType(tname syntax.TypeId, member string,
+	lookup *syntax.TypeLookup) syntax.TypeId {
+	if lookup != nil && tname.ArrayDim == 0 && tname.MapDim == 0 {
+		if st, ok := lookup.Get(tname).(*syntax.StructType); ok {
+			for _, m := range st.Members {
+				if m.Id == member {
+					return m.Tname
+				}
+			}
+		}
+	}
+	return tname
+}
+
 func convertToExp(parser *syntax.Parser, split bool, val json.Marshaler,
 	tname syntax.TypeId, lookup *syntax.TypeLookup) (syntax.ValExp, error) {
 	switch val := val.(type) {
@@ -817,8 +833,12 @@ func convertToExp(parser *syntax.Parser, split bool, val json.Marshaler,
 			tname.MapDim = 0
 		}
 		for k, v := range val {
+			mt := tname
+			if res.Kind == syntax.KindStruct {
+				mt = structMemberType(tname, k, lookup)
+			}
 			if e, err := convertToExp(parser, false,
-				v, tname, lookup); err != nil {
+				v, mt, lookup); err != nil {
 				return &res, err
 			} else {
 				res.Value[k] = e
@@ -837,8 +857,12 @@ func convertToExp(parser *syntax.Parser, split bool, val json.Marshaler,
 			tname.MapDim = 0
 		}
 		for k, v := range val {
+			mt := tname
+			if res.Kind == syntax.KindStruct {
+				mt = structMemberType(tname, k, lookup)
+			}
 			if e, err := convertToExp(parser, false,
-				v, tname, lookup); err != nil {
+				v, mt, lookup); err != nil {
 				return &res, err
 			} else {
 				res.Value[k] = e
